@@ -178,9 +178,12 @@ structure WState where
 /-- inputs of one `write` call -/
 structure Env where
   root : String
-  /-- the random temporary name -/
-  temp : String
+  /-- `random::<u64>()` -/
+  rand : Nat
   tails : List (List UInt8)
+
+/-- the temporary file name of this call -/
+def Env.temp (e : Env) : String := tempName e.rand
 
 def init (dir0 : Dir) : WState := ⟨dir0, [], .create, .running⟩
 
